@@ -1,6 +1,6 @@
 //! C35 harness: gix-credentials Context::write_to -> Context::from_bytes.
 //!
-//! cases:  rt <protocol> <host> <path> <username> <password> <url> <quit>   (struct field order)
+//! cases:  rt|tb <protocol> <host> <path> <username> <password> <url> <quit>   (struct field order)
 //!         parse <bytes>
 //! an optional field travels as: empty = None, otherwise the marker byte `S` followed by the value;
 //! quit is `T`, `F` or anything else for None.
@@ -297,6 +297,18 @@ fn gen(rng: &mut Rng, n: usize) -> Vec<Case> {
         Some(b"https://user@example.com:8080/a/b.git".to_vec()),
     ];
     out.push(rt_case(&full, 1));
+    for r in [&none, &all_empty, &full] {
+        let mut case = rt_case(r, 0);
+        case[0] = tag("tb");
+        out.push(case);
+    }
+    for s in [&b"\n"[..], b"\0", b"\r"] {
+        let mut r = full.clone();
+        r[4] = Some(s.to_vec());
+        let mut case = rt_case(&r, 0);
+        case[0] = tag("tb");
+        out.push(case);
+    }
     for i in 0..6 {
         // a single field: empty, "=", an attribute look-alike, every control byte at every position
         for v in [&b""[..], b"=", b"==", b"host=evil", b"a=b=c", b" ", b"\t"] {
@@ -369,7 +381,11 @@ fn gen(rng: &mut Rng, n: usize) -> Vec<Case> {
                 // mostly valid contexts
                 let r = raw_ctx(rng, 25);
                 let q = rng.below(6) as u8;
-                out.push(rt_case(&r, q));
+                let mut case = rt_case(&r, q);
+                if rng.chance(1, 8) {
+                    case[0] = tag("tb");
+                }
+                out.push(case);
             }
             10 | 11 => {
                 // control-heavy contexts
@@ -438,6 +454,13 @@ fn imp(c: &Case) -> String {
             match ctx.write_to(&mut buf) {
                 Ok(()) => format!("w ok {} r {}", hex(&buf), show_parse(&Context::from_bytes(&buf))),
                 Err(_) => format!("w err Encoding {}", hex(&buf)),
+            }
+        }
+        b"tb" => {
+            let (r, q) = raw_of(c);
+            match build_ctx(&r, q) {
+                Some(ctx) => format!("ok {}", hex(&ctx.to_bstring())), // panics when a value is refused
+                None => "notutf8".into(),
             }
         }
         b"parse" => show_parse(&Context::from_bytes(f_str(c, 1))),
@@ -534,6 +557,32 @@ fn prop(c: &Case) -> Verdict {
                     }
                     Verdict::ok(true, "rt-refused")
                 }
+            }
+        }
+        b"tb" => {
+            // to_bstring() is write_to() into memory; it may only panic when a value must be refused
+            let (r, q) = raw_of(c);
+            let ctx = match build_ctx(&r, q) {
+                Some(c) => c,
+                None => return Verdict::ok(false, "notutf8"),
+            };
+            let vals: Vec<&Vec<u8>> = r.iter().flatten().collect();
+            if vals.iter().any(|v| refusable(v)) {
+                let ctx2 = ctx.clone();
+                return match std::panic::catch_unwind(move || ctx2.to_bstring()) {
+                    Err(_) => Verdict::ok(true, "tb-refused"),
+                    Ok(out) if out.iter().any(|b| *b == 0) || out.iter().filter(|b| **b == b'\n').count() != vals.len() => {
+                        Verdict::fail("sends-newline-or-nul", hexs(&out))
+                    }
+                    Ok(_) => Verdict::ok(true, "tb-ok"),
+                };
+            }
+            let out = ctx.to_bstring();
+            let mut want = ctx.clone();
+            want.quit = None;
+            match Context::from_bytes(&out) {
+                Ok(back) if back == want => Verdict::ok(!vals.is_empty(), "tb-ok"),
+                _ => Verdict::fail("roundtrip", "to_bstring does not read back"),
             }
         }
         b"parse" => match Context::from_bytes(f_str(c, 1)) {
